@@ -355,14 +355,26 @@ def check_casts(ctx, rep):
                     n += 1
                     src = G.describe(b, st["rv"]["op"])
                     ok = False
+                    upper = lower = False
                     for g in G.guards_at(b, bi):
-                        if g.op in ("Lt", "Le") and g.b is not None and g.b.kind in ("constother", "const") and repr(src) in repr(g.a):
-                            ok = True
+                        if g.b is None or g.b.kind not in ("constother", "const") or g.a is None:
+                            continue
+                        if repr(src) not in repr(g.a):
+                            continue
+                        is_abs = g.a.kind == "call" and g.a.v.endswith("::abs")
+                        if g.op in ("Lt", "Le"):
+                            if is_abs:
+                                upper = lower = True  # |x| < K bounds both sides
+                            elif repr(g.a) == repr(src):
+                                upper = True
+                        elif g.op in ("Gt", "Ge") and repr(g.a) == repr(src):
+                            lower = True
+                    ok = upper and lower
                     key = "cast:%s:FloatToInt" % b.short.split("::")[-2 if b.short.endswith("serialize") else -1]
                     if ok:
-                        rep.ok("R-CAST", key, b.where(bi, st.get("line")), "dominated by an upper-bound comparison of the same value (range guard)")
+                        rep.ok("R-CAST", key, b.where(bi, st.get("line")), "dominated by a two-sided range guard on the same value (|x| < K, or lower and upper bound)")
                     else:
-                        rep.bad("R-CAST", "R-CAST:" + key, b.where(bi, st.get("line")), "float -> integer cast without a range guard: values beyond the integer range saturate and change magnitude")
+                        rep.bad("R-CAST", "R-CAST:" + key, b.where(bi, st.get("line")), "float -> integer cast without a two-sided range guard (upper=%s lower=%s): values beyond the integer range saturate and change magnitude" % (upper, lower))
         for bi, t in b.calls():
             nm = strip_generics(mir.callee_name(t) or "")
             is_f64_entry = False
